@@ -56,6 +56,50 @@ def check(repo, col, tier):
     _init_value(repo, col)
     col.rule("R-C10-derived", "derived parameters are computed from the overridden values", 1)
     derived_after_overrides(repo, col, "R-C10-derived")
+    col.rule("R-C10-paramsource", "the step reads every physical quantity from the `params` / states it is given, never from the module's tables", 6)
+    param_source(repo, col, "R-C10-paramsource")
+
+
+def param_source(repo, col, R):
+    """Everything Module.step reaches takes the parameters from its `params` argument -- the dictionary get_all_parameters built from
+    the tables AND the overrides (data_set / trainables).  A read of `self.jaxnodes[...]`, `self.jaxedges[...]` or of a parameter
+    column of `self.nodes` / `self.edges` on that path sees only what set() stored: the override reaches one part of the equations
+    (membrane, axial coupling) and not the other (e.g. the stimulus conversion), set() and data_set() then simulate differently."""
+    from . import common
+    cg = common._callgraph(repo)
+    fi0 = repo.method("Module", "step")
+    by_key = {(f.file, f.qual): f for f in repo.all_functions()}
+    seen, todo = set(), [(fi0.file, fi0.qual)]
+    while todo:
+        k = todo.pop()
+        if k in seen:
+            continue
+        seen.add(k)
+        todo.extend(cg.get(k, ()))
+    PHYS = {"radius", "length", "axial_resistivity", "capacitance", "v"}
+    n = 0
+    for k in sorted(seen):
+        f = by_key.get(k)
+        if f is None or not (f.file.startswith("jaxley/modules/") or f.file == "jaxley/integrate.py"):
+            continue
+        if not ({"params", "all_params"} & set(f.params)):
+            continue   # only functions that ARE given the parameters can bypass them (the call graph over-approximates: view creation ...)
+        bad = None
+        for x in walk_no_nested(f.node):
+            if isinstance(x, ast.Attribute) and x.attr in ("jaxnodes", "jaxedges") and isinstance(x.ctx, ast.Load):
+                bad = x
+            elif isinstance(x, ast.Subscript) and isinstance(x.value, ast.Attribute) and x.value.attr in ("nodes", "edges") and \
+                    isinstance(x.slice, ast.Constant) and x.slice.value in PHYS and isinstance(x.ctx, ast.Load):
+                bad = x
+        n += 1
+        col.check(bad is None, R, f, f"{f.qual} reads physical quantities only from its arguments", "params[...] / states[...]",
+                  f"`{unparse(bad)[:60] if bad is not None else ''}` in {f.qual} (reached from Module.step) reads the module's table instead of the "
+                  f"`params` it was given: values fed by data_set() or trainables do not reach this use, values stored by set() do", node=bad or f.node)
+    # positive instance: the tables are read where the parameters are assembled
+    gp = repo.method("Module", "get_all_parameters")
+    reads = [x for x in ast.walk(gp.node) if isinstance(x, ast.Attribute) and x.attr in ("jaxnodes", "jaxedges")]
+    if not reads:
+        raise AnalysisError("get_all_parameters no longer reads jaxnodes / jaxedges: the parameter-source rule lost its reference")
 
 
 def _init_value(repo, col):
